@@ -91,3 +91,17 @@ def handle(ch, out, ops):
         _CRASH["left"] = None
         ch.call(op="api", name="cop_end", exc=exc, ok=bool(ok))
     return 0
+
+
+def complete_ids(ch, out):
+    """What JobRunner._complete_hpc_job does at the end of a batch (on interface types where it runs): take the submitter
+    role, remove the ended batches' HPC job ids from the job status, give the role back."""
+    cluster, promoted = Cluster.deserialize(out, try_promote_to_submitter=True, deserialize_jobs=True)
+    if not promoted:
+        return 0
+    try:
+        for job_id in list(cluster.job_status.hpc_job_ids):
+            cluster.complete_hpc_job_id(job_id)
+    finally:
+        cluster.demote_from_submitter()
+    return 0
